@@ -327,3 +327,58 @@ Theorem C19_servo_binary64_config_constant : forall s op,
   sv_pin s' = sv_pin s /\ min_a s' = min_a s /\ max_a s' = max_a s /\ min_p s' = min_p s /\ max_p s' = max_p s.
 Proof. exact ServoFloatP.servo_config_constant_fl. Qed.
 Print Assumptions C19_servo_binary64_config_constant.
+
+(* rounding to the nearest binary64 number is monotone - what the bound theorem below rests on *)
+Theorem C19_binary64_rounding_monotone : forall p q, p <= q -> fl p <= fl q.
+Proof. exact ServoFloatP.fl_mono. Qed.
+Print Assumptions C19_binary64_rounding_monotone.
+
+(* PARTIAL, guard explicit: when the calibration maps the top of each range not above the bound
+   ([servo_top_ok]: fl (min + fl (fl (max - min))) <= max on both axes - implied by the executable guard
+   top_exact of the generators, fl (fl x) being fl x on binary64 numbers) and min_angle / min_pulse are
+   binary64 numbers, the image of EVERY in-range argument is within the configured bounds EXACTLY, in binary64:
+   one of the two maps ... *)
+Theorem C19_servo_binary64_map_within_bounds_partial : forall lo_in hi_in lo_out hi_out x,
+  lo_in < hi_in -> lo_out <= hi_out -> lo_in <= x -> x <= hi_in ->
+  is_b64 lo_out = true -> top_ok lo_out hi_out = true ->
+  lo_out <= lin_fl lo_in hi_in lo_out hi_out x /\ lin_fl lo_in hi_in lo_out hi_out x <= hi_out.
+Proof. exact ServoFloatP.lin_fl_bounds. Qed.
+Print Assumptions C19_servo_binary64_map_within_bounds_partial.
+
+(* ... one call, successful or failing ... *)
+Theorem C19_servo_binary64_bounds_step_partial : forall s op,
+  servo_guard s -> servo_bounds_fl s ->
+  servo_bounds_fl (sstate (sstep_fl s op)) /\ servo_guard (sstate (sstep_fl s op)).
+Proof. exact ServoFloatP.step_bounds_fl. Qed.
+Print Assumptions C19_servo_binary64_bounds_step_partial.
+
+(* ... and every history *)
+Theorem C19_servo_binary64_bounds_reachable_partial : forall ops s,
+  servo_guard s -> servo_bounds_fl s -> servo_bounds_fl (srun_fl ops s) /\ servo_guard (srun_fl ops s).
+Proof. exact ServoFloatP.run_bounds_fl. Qed.
+Print Assumptions C19_servo_binary64_bounds_reachable_partial.
+
+Theorem C19_servo_binary64_fresh_bounds : forall pin mina maxa minp maxp,
+  mina < maxa -> minp < maxp -> servo_bounds_fl (mkServo pin mina maxa minp maxp mina minp).
+Proof. exact ServoFloatP.fresh_bounds_fl. Qed.
+Print Assumptions C19_servo_binary64_fresh_bounds.
+
+(* the guard is satisfiable by the default calibration and by a one-decimal one (0.1 .. 179.9, 544.5 .. 2400.3),
+   and false for both refutation witnesses *)
+Example C19_servo_binary64_guard_nonvacuous :
+  servo_guard (mkServo (PI 9) 0 180 544 2400 0 544) /\
+  servo_guard (mkServo (PI 9) (fl (1 # 10)) (fl (1799 # 10)) (fl (5445 # 10)) (fl (24003 # 10)) (fl (1 # 10)) (fl (5445 # 10))) /\
+  servo_top_ok pulse_witness = false /\ servo_top_ok angle_witness = false.
+Proof. exact ServoFloatP.guard_nonvacuous. Qed.
+Print Assumptions C19_servo_binary64_guard_nonvacuous.
+
+(* the results of [fl] are binary64 numbers (rounding again changes nothing), so the guard is what the generators
+   evaluate in Python - lo + (hi - lo) <= hi with every operation rounded once - and the equality form implies it *)
+Theorem C19_binary64_rounding_idempotent : forall x, fl (fl x) == fl x.
+Proof. exact ServoFloatP.fl_idem. Qed.
+Print Assumptions C19_binary64_rounding_idempotent.
+
+Theorem C19_servo_binary64_guard_is_executable : forall lo hi,
+  (top_ok lo hi = true <-> fl (lo + fl (hi - lo)) <= hi) /\ (top_exact lo hi = true -> top_ok lo hi = true).
+Proof. intros lo hi. split; [exact (ServoFloatP.top_ok_iff lo hi) | exact (ServoFloatP.top_exact_ok lo hi)]. Qed.
+Print Assumptions C19_servo_binary64_guard_is_executable.
